@@ -189,6 +189,7 @@ pub fn c11(out: &mut dyn Write, tier: &str, rng: &mut Rng, st: &mut Stats) {
     let n = if tier == "thorough" { 6000 } else { 500 };
     for i in 0..n {
         let (_gf, text, names) = gen_formula(rng, i % 4 == 0, 5);
+        crate::watchdog::enter(&text);
         let default = match parse_text(text.as_bytes(), None) {
             crate::formula::Parsed::Ok(pf) => pf,
             _ => continue,
@@ -236,5 +237,6 @@ pub fn c11(out: &mut dyn Write, tier: &str, rng: &mut Rng, st: &mut Stats) {
             st.hit("cli");
             st.hit(&format!("roundtrip.{}", roundtrip));
         }
+        crate::watchdog::leave();
     }
 }
